@@ -298,7 +298,11 @@ fn __dump_header(f: &PathBuf, h: &Qcow2Header) {
     println!("Qcow2 Header: image {:?} length {}", f, h.header_length());
     println!("\t version\t {}", h.version());
     println!("\t virtual_size\t {} MB", h.size() >> 20);
-    println!("\t cluster_size\t {} KB", 1 << (h.cluster_bits() - 10));
+    if h.cluster_bits() >= 10 {
+        println!("\t cluster_size\t {} KB", 1 << (h.cluster_bits() - 10));
+    } else {
+        println!("\t cluster_size\t {} B", 1 << h.cluster_bits());
+    }
     println!("\t refcount_order\t {}", h.refcount_order());
     println!(
         "\t crypt_method\t {}",
